@@ -73,7 +73,7 @@ RULE = ("histories of init(path) / edit(body, newer mtime) / touch / run(switche
         "an escaped character or share a 16-char prefix; distinct = hash of the operation list / (entry, "
         "length) / pair")
 
-F1, F2, F3, F4 = "C19-F1", "C19-F2", "C19-F3", "C19-F4"
+F1, F2, F3, F4, F5 = "C19-F1", "C19-F2", "C19-F3", "C19-F4", "C19-F5"
 BASE_TIME = 1_600_000_000           # logical clock origin (well before the real clock)
 FOREIGN_MARK = "FOREIGN-ENTRY-EXECUTED"
 EVIL_MARK = "EVIL-STRING-EXECUTED"
@@ -226,6 +226,102 @@ def classify_body(b, trusted=False):
     except Exception:  # noqa: BLE001
         return "unloadable"
     return "code" if isinstance(o, types.CodeType) else "noncode"
+
+
+# -- byte-level damage of a *valid* entry --------------------------------------------------------
+# What CPython's unmarshaller makes of a damaged body is decided in a throw-away child process with a
+# small address space: some damaged bodies make marshal.loads itself die with SIGSEGV or ask for
+# gigabytes (CPython's problem, not something xonsh can defend against), and a body that still loads
+# as a code object must never be *executed* inside the worker.
+
+CLASSIFIER_SRC = r'''
+import sys, marshal, resource, types
+resource.setrlimit(resource.RLIMIT_AS, (256 << 20, 256 << 20))
+resource.setrlimit(resource.RLIMIT_CORE, (0, 0))
+i, o = sys.stdin.buffer, sys.stdout.buffer
+while True:
+    h = i.read(4)
+    if len(h) < 4:
+        break
+    b = i.read(int.from_bytes(h, 'little'))
+    try:
+        x = marshal.loads(b)
+        r = 'code' if isinstance(x, types.CodeType) else 'noncode:' + type(x).__name__
+        del x
+    except BaseException as e:
+        r = 'exc:' + type(e).__name__
+    o.write(r.encode() + b'\n')
+    o.flush()
+'''
+_clf = {}
+
+
+def _clf_start():
+    _clf["p"] = subprocess.Popen([sys.executable, "-S", "-E", "-c", CLASSIFIER_SRC], stdin=subprocess.PIPE,
+                                 stdout=subprocess.PIPE, stderr=subprocess.DEVNULL)
+
+
+def _clf_stop():
+    p = _clf.pop("p", None)
+    if p is not None:
+        try:
+            p.kill()
+        except OSError:
+            pass
+        p.wait()
+
+
+def classify_remote(body):
+    """What `marshal.loads(body)` does in this Python: 'code' | 'noncode:<type>' | 'exc:<ExceptionType>' |
+    'crash' (the unmarshaller died from a signal) | 'hang'."""
+    import select
+
+    key = bytes(body)
+    memo = _clf.setdefault("memo", {})
+    if key in memo:
+        return memo[key]
+    if "p" not in _clf or _clf["p"].poll() is not None:
+        _clf_start()
+    p = _clf["p"]
+    r = b""
+    try:
+        p.stdin.write(len(key).to_bytes(4, "little") + key)
+        p.stdin.flush()
+        if select.select([p.stdout], [], [], 20)[0]:
+            r = p.stdout.readline()
+        else:
+            _clf_stop()
+            r = b"hang\n"
+    except (BrokenPipeError, OSError):
+        r = b""
+    if not r:
+        _clf_stop()
+        r = b"crash\n"
+    out = r.decode("ascii", "replace").strip()
+    if len(memo) > 20000:
+        memo.clear()
+    memo[key] = out
+    return out
+
+
+def flip_detectable(cls):
+    """Damage the loader can in principle notice: the body does not unmarshal (an exception of any type
+    except MemoryError, which a loader may legitimately let through and which would also cost the worker
+    its memory) or unmarshals to something that is not a code object."""
+    return cls.startswith("noncode:") or (cls.startswith("exc:") and cls != "exc:MemoryError")
+
+
+def signed_offset(body, idx, filename):
+    """Address a body byte so that the address survives a different scratch directory: the script's path
+    is embedded once in the marshalled code; bytes after it are addressed from the end (negative)."""
+    try:
+        fb = filename.encode("utf-8")
+    except UnicodeError:
+        return idx
+    pos = body.find(fb)
+    if pos >= 0 and idx >= pos + len(fb):
+        return idx - len(body)
+    return idx
 
 
 NONCODE_OBJS = {
@@ -450,12 +546,33 @@ def observe(fn, glb):
 
 
 def same_obs(a, b):
-    return all(a.get(k) == b.get(k) for k in ("returned", "raised", "stdout", "ns", "rc"))
+    return all(a.get(k) == b.get(k) for k in ("returned", "raised", "stdout", "ns", "rc", "loaded"))
+
+
+def rc_view(ref):
+    """What xonsh_script_run_control (environ.py) makes of a run that behaves like `ref`: errors of the file
+    (including SyntaxError from compiling it) are printed, not raised, and reported as loaded=False;
+    __file__ / __name__ are only in the context while the file runs."""
+    import builtins
+
+    out = dict(ref)
+    raised = ref.get("raised")
+    if raised is not None:
+        tp = getattr(builtins, raised["type"], None)
+        if isinstance(tp, type) and issubclass(tp, SyntaxError):
+            out.pop("raised")
+            out["returned"] = None
+            out["loaded"] = False
+    else:
+        out["loaded"] = ref.get("returned") is None
+        out["returned"] = None
+    out["ns"] = {k: v for k, v in (ref.get("ns") or {}).items() if k not in ("__file__", "__name__")}
+    return out
 
 
 def obs_diff(a, b):
     out = []
-    for k in ("raised", "returned", "stdout", "rc", "ns"):
+    for k in ("raised", "returned", "stdout", "rc", "loaded", "ns"):
         if a.get(k) != b.get(k):
             out.append("%s: got %r, uncached reference %r" % (k, a.get(k), b.get(k)))
     return "; ".join(out)
@@ -549,7 +666,7 @@ def run_child(args, data_dir, sw_env, cwd, stdin_text=None):
 # ----------------------------------------------------------------------------------------
 # one history = one script, one data dir, one logical clock
 
-REBUILDABLE = ("trunc", "header", "noncode", "random", "garbage")
+REBUILDABLE = ("trunc", "header", "noncode", "random", "garbage", "flip", "hflip")
 
 
 class History:
@@ -564,12 +681,25 @@ class History:
         self.clock = BASE_TIME
         self.edits = 0
         self.script = None
+        # the next seven describe the *current target* (the file the script's name resolves to now);
+        # op_retarget parks them in self.alts[self.cur] and loads the other target's
         self.script_text = None
         self.script_kind = None
+        self.script_tok = None
         self.last_change = "edit"
         self.entry_path = None          # script cache entry (found by scanning the data dir)
         self.entry_stamp = None         # st_mtime_ns we gave it last
-        self.entry_corrupt = None       # (how, arg, bytes) while our corruption is still in place
+        self.entry_corrupt = None       # (how, arg, bytes, False[, class]) while our corruption is still in place
+        self.entry_fn = None            # the spelling of the script's name under which the entry was written
+        self.layout = None              # None | top | file | dir | cwd   (how the name reaches the file)
+        self.spell = "abs"              # abs | rel | dotdot              (how the name is spelled)
+        self.alts = []                  # parked per-target state
+        self.altdirs = []
+        self.cur = 0
+        self.link = None                # the symlink that op_retarget re-points (file / dir layouts)
+        self.last_entry_time = None     # logical mtime of the script entry stamped most recently (any target)
+        self.after_retarget = None      # (mtime choice, target had been run before) until the next run
+        self.flip_class = None          # class of the most recent byte flip (for the enumeration's labels)
         self.code_of = {}               # (text, mode) -> cache file, once learned
         self.files = {}                 # cache file -> dict(text, file, stamp, corrupt, written_mode)
         self.guesses = {}               # file name xonsh's functions give -> text
@@ -628,6 +758,8 @@ class History:
             return self.op_code(op)
         if name == "corrupt":
             return self.op_corrupt(op)
+        if name == "retarget":
+            return self.op_retarget(op)
         raise common.HarnessError("unknown op %r" % (op,))
 
     def op_init(self, op):
@@ -644,21 +776,119 @@ class History:
         shutil.rmtree(self.root, ignore_errors=True)
         self.data = os.path.join(self.root, "data")
         real = os.path.join(self.root, "src")
-        os.makedirs(os.path.join(real, *comps[:-1]))
+        layout = op.get("layout") or ("top" if op.get("link") else None)
+        if layout not in (None, "top", "file", "dir", "cwd"):
+            raise common.HarnessError("unknown layout %r" % (layout,))
+        # layouts with several targets: the same name can be made to resolve to t0 / t1 / t2
+        #   file  bin/<name> is a symlink to src/t<i>/<path>           (alternatives-style link)
+        #   dir   lnk is a symlink to src/t<i>, the script is lnk/<path> (release directory: current -> v<i>)
+        #   cwd   no link: the script is named relative to the working directory src/t<i>
+        #   top   lnk is a symlink to src and never moves;  None: no link at all
+        self.layout, self.comps = layout, comps
+        self.rellink = bool(op.get("rellink"))
+        self.altdirs = [os.path.join(real, "t%d" % i) for i in range(3)] if layout in ("file", "dir", "cwd") else [real]
+        for d in self.altdirs:
+            os.makedirs(os.path.join(d, *comps[:-1]))
         os.makedirs(self.data)
-        top = real
-        if op.get("link"):
-            top = os.path.join(self.root, "lnk")
-            os.symlink(real, top)
-        self.script = os.path.join(top, *comps)
-        self.rel = bool(op.get("rel"))
+        self.alts = [None] * len(self.altdirs)
+        self.cur = 0
+        first = os.path.join(self.altdirs[0], *comps)
+        if layout in ("top", "dir"):
+            self.link = os.path.join(self.root, "lnk")
+            self.point(self.link, real if layout == "top" else self.altdirs[0])
+            self.script = os.path.join(self.link, *comps)
+        elif layout == "file":
+            os.makedirs(os.path.join(self.root, "bin"))
+            self.link = os.path.join(self.root, "bin", comps[-1])
+            self.point(self.link, first)
+            self.script = self.link
+        else:
+            self.script = first
+        spell = op.get("spell") or ("rel" if op.get("rel") and self.backend == "proc" else "abs")
+        if spell not in ("abs", "rel", "dotdot"):
+            raise common.HarnessError("unknown spelling %r" % (spell,))
+        if layout == "cwd" and spell == "abs":
+            spell = op["spell"] = "rel"
+        self.spell = spell
         st["XSH"].env["XONSH_DATA_DIR"] = self.data
         self.lab("name:" + ("too-long" if name_too_long(comps[-1]) else
                             "py" if comps[-1].endswith(".py") else "xsh" if comps[-1].endswith(".xsh") else "other"))
-        if op.get("link"):
+        if layout in ("top", "file", "dir"):
             self.lab("name:via-symlink")
+        self.lab("layout:%s" % (layout or "plain"))
+        self.lab("spell:" + spell)
         if len(comps) > 1:
             self.lab("name:nested")
+
+    def point(self, link, target):
+        """(Re-)point a symlink.  The link itself carries an old mtime, so an implementation that looked
+        at the link instead of the file (lstat) would consider every entry fresh."""
+        if os.path.lexists(link):
+            os.remove(link)
+        os.symlink(os.path.relpath(target, os.path.dirname(link)) if self.rellink else target, link)
+        os.utime(link, (BASE_TIME - 5000, BASE_TIME - 5000), follow_symlinks=False)
+
+    ALT_KEYS = ("script_text", "script_kind", "script_tok", "last_change", "entry_path", "entry_stamp", "entry_corrupt",
+                "entry_fn")
+
+    def op_retarget(self, op):
+        """The script's *name* now resolves to another file (link re-pointed: release roll-back / roll-forward,
+        `alternatives`; or, without any link, the same relative name from another working directory).  The
+        new target's mtime is older than every cache entry / equal to the mtime of the entry written most
+        recently / newer than everything / left as it was."""
+        n = len(self.altdirs)
+        if n < 2 or self.script_text is None:
+            return self.ops.pop()
+        to = op["to"] % n
+        if to == self.cur:
+            return self.ops.pop()
+        op["to"] = to
+        self.alts[self.cur] = {k: getattr(self, k) for k in self.ALT_KEYS}
+        self.cur = to
+        target = os.path.join(self.altdirs[to], *self.comps)
+        if self.layout == "dir":
+            self.point(self.link, self.altdirs[to])
+        elif self.layout == "file":
+            self.point(self.link, target)
+        else:
+            self.script = target
+        how = op.get("mtime") or "keep"
+        state = self.alts[to]
+        known = state is not None
+        if not known:
+            self.edits += 1
+            kind = op.get("kind") or "print"
+            tok = "K%dx%s" % (self.edits, op.get("salt", ""))
+            text = render_body(kind, tok)
+            with open(target, "w", encoding="utf-8") as f:
+                f.write(text)
+            state = dict(script_text=text, script_kind=kind, script_tok=tok, last_change="edit", entry_path=None,
+                         entry_stamp=None, entry_corrupt=None, entry_fn=None)
+            if how == "keep":
+                how = "older"
+        for k in self.ALT_KEYS:
+            setattr(self, k, state[k])
+        if how == "equal" and self.last_entry_time is None:
+            how = "older"
+        if how == "older":
+            t = BASE_TIME - 1000 + to
+        elif how == "equal":
+            t = self.last_entry_time
+        elif how == "newer":
+            t = self.tick()
+            if known:
+                self.last_change = "touch"
+        elif how != "keep":
+            raise common.HarnessError("retarget: unknown mtime choice %r" % (how,))
+        if how != "keep":
+            if known:
+                # a file whose text may have changed since its own entry was written never travels back in
+                # time (new text under an old mtime is outside the property)
+                t = max(t, int(os.stat(target).st_mtime))
+            os.utime(target, (t, t))
+        op["mtime"] = how
+        self.after_retarget = (how, known)
+        self.lab("retarget:%s:%s:%s" % (self.layout, how, "seen-target" if known else "new-target"))
 
     def op_edit(self, op):
         self.edits += 1
@@ -686,9 +916,10 @@ class History:
         if self.entry_path is not None and os.path.lexists(self.entry_path):
             return self.entry_path
         hits = []
+        claimed = {a["entry_path"] for i, a in enumerate(self.alts) if a is not None and i != self.cur}
         for dp, dn, fn in os.walk(os.path.join(self.data, "xonsh_script_cache")):
             for f in fn:
-                if f.endswith("." + CACHE_TAG):
+                if f.endswith("." + CACHE_TAG) and os.path.join(dp, f) not in claimed:
                     hits.append(os.path.join(dp, f))
         if len(hits) > 1:
             self.bad("two-entries", "one script, but %d script-cache entries: %r" % (len(hits), hits))
@@ -744,16 +975,47 @@ class History:
         return True, "", code
 
     # -- running the script -------------------------------------------------------------------
-    def script_ns(self, via):
+    def script_ns(self, via, fn):
         if via == "import":
-            return {"__name__": "verif_mod", "__file__": self.script}
-        return {"__name__": "__main__", "__file__": self.spelling()}
+            return {"__name__": "verif_mod", "__file__": fn}
+        if via == "rc":
+            # what xonsh_script_run_control puts into the context while the file runs
+            return {"__file__": fn, "__name__": os.path.abspath(os.path.join(self.cwd(), fn))}
+        return {"__name__": "__main__", "__file__": fn}
+
+    def cwd(self):
+        """Working directory of every run."""
+        return self.altdirs[self.cur] if self.layout == "cwd" else self.root
 
     def spelling(self):
-        if self.backend == "proc" and self.rel:
+        """The name the script is run by (relative names are relative to self.cwd())."""
+        if self.layout == "cwd":
+            r = os.path.join(*self.comps)
+            if self.spell == "dotdot":
+                r = os.path.join("..", os.path.basename(self.altdirs[self.cur]), r)
+        elif self.spell == "abs":
+            return self.script
+        elif self.spell == "rel":
             r = os.path.relpath(self.script, self.root)
-            return "./" + r if r.startswith("-") else r
-        return self.script
+        else:
+            return os.path.join(self.root, "data", "..", os.path.relpath(self.script, self.root))
+        return "./" + r if r[:1] in ("-", "~") else r
+
+    def import_filename(self, hook, fn):
+        """-> (module name, file name) the way the import machinery arrives at them: find_spec over the
+        directory part of the spelling when the name allows it (no dot in the stem), else the absolute path
+        entered by hand."""
+        base = os.path.basename(fn)
+        stem = base[:-4]
+        d = os.path.dirname(fn) or "."
+        if stem and "." not in stem:
+            spec = hook.find_spec(stem, [d])
+            got = hook.get_filename(stem) if spec is not None else None
+            if got is not None and os.path.basename(got) == base:
+                self.lab("via:import:find_spec")
+                return stem, got
+        hook._filenames["verif_mod"] = os.path.abspath(fn)
+        return "verif_mod", hook._filenames["verif_mod"]
 
     def reference(self, key, make):
         if key not in self.refs:
@@ -764,7 +1026,7 @@ class History:
         self.nref += 1
         d = os.path.join(self.root, "refdata%d" % self.nref)
         obs = run_child(["--no-script-cache"] + args, d, {"XONSH_CACHE_SCRIPTS": "0", "XONSH_CACHE_EVERYTHING": "0"},
-                        self.root, stdin_text)
+                        self.cwd(), stdin_text)
         shutil.rmtree(d, ignore_errors=True)
         return obs
 
@@ -786,58 +1048,104 @@ class History:
         via = op.get("via", "script")
         if via == "import" and (self.backend == "proc" or not self.script.endswith(".xsh")):
             via = op["via"] = "script"
+        if via == "rc" and self.backend == "proc":
+            via = op["via"] = "script"
         text, fn = self.script_text, self.spelling()
         path = self.find_entry()
         cond = self.entry_condition(path, self.entry_corrupt, self.entry_stamp, True)
         on = use_cache_formula(sw, "exec")
+        raw_ref = None
+        # the import machinery always works with the absolute path (find_spec)
+        eff_fn = os.path.normpath(os.path.join(self.cwd(), fn)) if via == "import" else fn
+        if F5 in self.open and self.script_kind == "where" and on and cond == "fresh" \
+                and self.entry_fn not in (None, eff_fn):
+            return self.exclude(F5)
         if self.backend == "proc":
-            ref = self.reference(("proc-script", text), lambda: self.proc_ref([fn]))
+            ref = self.reference(("proc-script", text, fn), lambda: self.proc_ref([fn]))
             flags, envsw = self.proc_switches(sw)
-            obs = run_child(flags + [fn], self.data, envsw, self.root)
+            obs = run_child(flags + [fn], self.data, envsw, self.cwd())
         else:
-            ref = self.reference(("script", via, text), lambda: ref_observe(text, fn, "exec", self.script_ns(via)))
-            glb = self.script_ns(via)
-            set_switches(sw)
+            old_cwd = os.getcwd()
+            os.chdir(self.cwd())
             try:
+                box = {}
                 if via == "import":
                     from xonsh.imphooks import XonshImportHook
 
                     hook = XonshImportHook(ex)
-                    hook._filenames["verif_mod"] = fn
+                    modname, fn = self.import_filename(hook, fn)
+                    glb = self.script_ns(via, fn)
 
                     def call():
-                        code = hook.get_code("verif_mod")
+                        code = hook.get_code(modname)
                         return cc.run_compiled_code(code, glb, None, "exec")
+                elif via == "rc":
+                    from xonsh import environ as xenviron
+
+                    glb = {}
+
+                    def call():
+                        box["loaded"] = xenviron.xonsh_script_run_control(fn, glb, st["XSH"].env, execer=ex)
+                        return (None, None, None)
                 else:
+                    glb = self.script_ns(via, fn)
+
                     def call():
                         return cc.run_script_with_cache(fn, ex, glb=glb, loc=None, mode="exec")
-                obs = observe(call, glb)
+                _fn = fn
+                ref = raw_ref = self.reference(("script", via, text, fn),
+                                               lambda: ref_observe(text, _fn, "exec", self.script_ns(via, _fn)))
+                if via == "rc":
+                    ref = rc_view(raw_ref)
+                set_switches(sw)
+                try:
+                    obs = observe(call, glb)
+                finally:
+                    reset_switches()
+                if via == "rc" and "raised" not in obs:
+                    obs["loaded"] = box.get("loaded")
             finally:
-                reset_switches()
+                os.chdir(old_cwd)
+        self.last_fn = fn
         if body_shows_token(self.script_kind) and self.script_tok not in ref["stdout"] + repr(ref.get("ns")) \
                 and not (fn.endswith(".py") and self.script_kind in ("env", "sub")) \
                 and not (self.backend == "proc" and self.script_kind == "set"):
             raise common.HarnessError("the uncached reference does not show the token %r: %r" % (self.script_tok, ref))
         self.lab("run:%s:%s" % (cond, "cache-on" if on else "cache-off"))
-        if via == "import":
-            self.lab("via:import")
+        if via in ("import", "rc"):
+            self.lab("via:" + via)
         if on and (cond.startswith("stale") or cond.startswith("corrupt")):
             self.nontrivial = True
+        if self.after_retarget is not None:
+            how, known = self.after_retarget
+            self.after_retarget = None
+            # the interesting case: an entry exists that is not older than the file the name resolves to now
+            hot = self.last_entry_time is not None and os.stat(self.script).st_mtime <= self.last_entry_time
+            self.lab("run-after-retarget:%s:%s:%s" % (self.layout, "not-newer-than-an-entry" if hot else "newer",
+                                                     "cache-on" if on else "cache-off"))
+            if on and hot:
+                self.nontrivial = True
         corrupt = self.entry_corrupt
         if not same_obs(obs, ref):
             self.fail_run(op, obs, ref, cond, corrupt, None)
+        if raw_ref is not None:
+            ref = raw_ref
         path = self.find_entry()
         self.entry_stamp, rewritten = self.stamp(path, self.entry_stamp)
         if rewritten:
             self.entry_corrupt = None
+            self.entry_fn = fn
+        if path is not None and self.entry_stamp is not None:
+            self.last_entry_time = max(self.last_entry_time or 0, self.entry_stamp // 10 ** 9)
         # a corrupted entry must have been replaced when the cache is on under every reading of the switches
         if corrupt is not None and sw[0] and sw[2] and corrupt[0] in REBUILDABLE and "raised" not in ref \
                 and not (corrupt[0] == "header" and corrupt[1] == "sibling-tag") \
-                and not (corrupt[0] == "trunc" and corrupt[3]):
+                and not (corrupt[0] == "trunc" and corrupt[3]) \
+                and not (corrupt[0] == "hflip" and corrupt[4] == "header-blank"):
             self.check_rebuilt(path, corrupt, ref, via)
 
     def check_rebuilt(self, path, corrupt, ref, via, code_mode=None, text=None):
-        what = "%s(%s)" % (corrupt[0], corrupt[1])
+        what = "%s(%s)" % (corrupt[0], corrupt[1]) + (" = marshal: %s" % corrupt[4] if len(corrupt) > 4 else "")
         if path is None or not os.path.isfile(path):
             self.bad("not-rebuilt", "after a cached run over a corrupted entry [%s] there is no entry file" % what,
                      bucket="not-rebuilt:" + corrupt[0])
@@ -849,7 +1157,7 @@ class History:
             return
         # the rebuilt entry must be the compilation of the *current* source
         if code_mode is None:
-            glb = self.script_ns(via)
+            glb = self.script_ns(via, self.last_fn)
             mode = "exec"
         else:
             glb = {"__name__": "__main__"}
@@ -867,11 +1175,17 @@ class History:
             fatal = obs.get("rc") != ref.get("rc") and "Traceback" in obs.get("_stderr", "")
         executed = FOREIGN_MARK in obs.get("stdout", "") or EVIL_MARK in obs.get("stdout", "") or \
             "foreign_executed" in (obs.get("ns") or {})
+        shown = obs.get("stdout", "") + repr(obs.get("ns")) + repr(obs.get("returned")) + repr(obs.get("raised"))
+        other = [i for i, a in enumerate(self.alts) if a is not None and i != self.cur and op["op"] == "run"
+                 and a["script_tok"] and a["script_tok"] in shown and a["script_tok"] not in (self.script_tok or "")]
         kind = "foreign-entry-executed" if executed else "fatal" if fatal else \
-            "stale-result" if cond.startswith("stale") else "result-differs"
+            "other-file-executed" if other else "stale-result" if cond.startswith("stale") else "result-differs"
+        if kind == "other-file-executed":
+            cond = "%s-name-re-pointed(now t%d, shows the token of t%d)" % (self.layout, self.cur, other[0])
         finding = None
         if corrupt is not None:
-            if corrupt[0] == "noncode" or (corrupt[0] == "random" and classify_body(bytes.fromhex(corrupt[1])) == "noncode"):
+            if corrupt[0] == "noncode" or (corrupt[0] == "random" and classify_body(bytes.fromhex(corrupt[1])) == "noncode") \
+                    or (corrupt[0] == "flip" and corrupt[4].startswith("noncode:")):
                 finding = F1
             if corrupt[0] == "chmod0" and (raised or {}).get("type") == "PermissionError":
                 finding = F2
@@ -883,13 +1197,21 @@ class History:
         if self.backend == "proc" and op["op"] == "run" and name_too_long(os.path.basename(self.script)) \
                 and "File name too long" in obs.get("_stderr", ""):
             finding = F4
+        if op["op"] == "run" and corrupt is None and self.script_kind == "where" and cond == "fresh" \
+                and self.entry_fn not in (None, self.last_fn) \
+                and same_obs(dict(obs, stdout=obs.get("stdout", "").replace(" False ", " True ")), ref):
+            # the only difference: the code object carries the file name it was compiled under
+            finding = F5
+            kind = "cached-code-keeps-old-spelling"
         detail = "%s with switches %r, entry %s: %s" % (
             "script run" if op["op"] == "run" else "code %r in mode %s" % (code_info["text"], op["mode"]),
-            op["sw"], cond + ("(%s)" % (corrupt[1],) if corrupt else ""), obs_diff(obs, ref))
+            op["sw"], cond + ("(%s)" % (corrupt[1],) if corrupt else "")
+            + (" [byte xor-ed in a valid entry; marshal.loads of the body: %s]" % corrupt[4] if corrupt and len(corrupt) > 4 else ""),
+            obs_diff(obs, ref))
         if obs.get("_stderr") and fatal:
             detail += " | stderr: " + obs["_stderr"][-200:]
         self.bad(kind, detail, finding=finding, bucket="%s:%s:%s" % (kind, op["op"], cond.split(":")[-1]
-                                                                   if cond.startswith("corrupt") else cond))
+                                                                   if cond.startswith("corrupt") else cond.split("(")[0]))
 
     # -- code strings ---------------------------------------------------------------------------
     # The cache file of a (text, mode) is *learned* by watching the code store (new file after a cached
@@ -965,7 +1287,7 @@ class History:
                 args, stdin_text = [], text
             ref = self.reference(("proc-code", pmode, text), lambda: self.proc_ref(args, stdin_text))
             flags, envsw = self.proc_switches(sw)
-            obs = run_child(flags + args, self.data, envsw, self.root, stdin_text)
+            obs = run_child(flags + args, self.data, envsw, self.cwd(), stdin_text)
         else:
             ref = self.reference(("code", mode, text), lambda: ref_observe(text, "<string>", mode, {"__name__": "__main__"}))
             glb = {"__name__": "__main__"}
@@ -987,12 +1309,14 @@ class History:
             info["written_mode"] = mode
         if corrupt is not None and sw[1] and sw[3] and corrupt[0] in REBUILDABLE and "raised" not in ref \
                 and not (corrupt[0] == "header" and corrupt[1] == "sibling-tag") \
-                and not (corrupt[0] == "trunc" and corrupt[3]):
+                and not (corrupt[0] == "trunc" and corrupt[3]) \
+                and not (corrupt[0] == "hflip" and corrupt[4] == "header-blank"):
             self.check_rebuilt(info["file"], corrupt, ref, None, code_mode=mode, text=text)
 
     # -- corruption -------------------------------------------------------------------------------
     def op_corrupt(self, op):
         how, arg = op["how"], op.get("arg")
+        self.flip_class = None
         if op.get("target") == "code":
             info = self.code_entry(render_code(op["kind"], op["tok"]), op.get("mode", "single"))
             path = info["file"]
@@ -1022,6 +1346,43 @@ class History:
         with open(path, "rb") as f:
             current = f.read()
         noop = False
+        flip_new = flip_cls = None
+        if how in ("flip", "hflip"):
+            # one byte of a *valid* entry is xor-ed: body (flip) or header (hflip); arg = [offset, mask],
+            # offset taken modulo the length, negative = from the end
+            hdr = _state["header"]
+            state0 = self.entry_corrupt if info is None else info["corrupt"]
+            self.flip_class = None
+            if state0 is not None or not current.startswith(hdr) or len(current) <= len(hdr) \
+                    or classify_remote(current[len(hdr):]) != "code":
+                self.lab("corrupt:flip-without-valid-entry")
+                return self.ops.pop()
+            off, mask = int(arg[0]), int(arg[1]) & 0xFF
+            if not mask:
+                raise common.HarnessError("flip with an empty mask: %r" % (op,))
+            if how == "hflip":
+                idx = off % len(hdr)
+                cls = "header"
+                if bytes([current[idx]]).isspace() or bytes([current[idx] ^ mask]).isspace():
+                    cls = "header-blank"        # a loader may tolerate other white space around the version lines
+                elif hdr[:idx] + bytes([current[idx] ^ mask]) + hdr[idx + 1:] == hdr:
+                    raise common.HarnessError("hflip did not change the header")
+            else:
+                idx = len(hdr) + off % (len(current) - len(hdr))
+            mutated = bytearray(current)
+            mutated[idx] ^= mask
+            if how == "flip":
+                cls = classify_remote(bytes(mutated[len(hdr):]))
+            self.flip_class = cls
+            if how == "flip" and not flip_detectable(cls):
+                # 'code': a loadable, well-formed code object that is simply different code - the format has no
+                # checksum and the property does not ask for one: counted, never written, never executed.
+                # MemoryError / crash / hang of the unmarshaller itself: CPython's business, and not safe here.
+                self.lab("corrupt:flip:" + ("undetectable-damage" if cls == "code" else "discarded-" + cls.split(":")[-1]))
+                return self.ops.pop()
+            if cls.startswith("noncode:") and F1 in self.open:
+                return self.exclude(F1)
+            flip_new, flip_cls = bytes(mutated), cls
         if how in ("noncode", "random"):
             cls = classify_body(marshal.dumps(NONCODE_OBJS[arg]), True) if how == "noncode" else \
                 classify_body(bytes.fromhex(arg))
@@ -1053,7 +1414,7 @@ class History:
             new = current
             noop = True
         else:
-            new = corrupt_bytes(how, arg, current)
+            new = flip_new if flip_new is not None else corrupt_bytes(how, arg, current)
             noop = new == current
             if not noop:
                 with open(path, "wb") as f:
@@ -1067,21 +1428,21 @@ class History:
             t = self.tick()
             os.utime(path, (t, t))
             stamp = os.lstat(path).st_mtime_ns
-        state = (how, arg, new, False)
+        state = (how, arg, new, False) if flip_cls is None else (how, list(arg), new, False, flip_cls)
         if noop:
             state = self.entry_corrupt if info is None else info["corrupt"]
         if info is None:
             self.entry_stamp, self.entry_corrupt = stamp, state
         else:
             info["stamp"], info["corrupt"] = stamp, state
-        self.lab("corrupt:%s" % how + (":" + arg if how == "header" else ""))
+        self.lab("corrupt:%s" % how + (":" + arg if how == "header" else ":" + flip_cls if flip_cls else ""))
 
 
 # ----------------------------------------------------------------------------------------
 # replaying a history without Hypothesis
 
 
-def check_history(case, open_ids=()):
+def check_history(case, open_ids=(), stats=None):
     """Re-execute {'ops': [...], 'backend': ...}.  -> Failure | None"""
     h = History(open_ids, case.get("backend", "inproc"))
     try:
@@ -1090,6 +1451,11 @@ def check_history(case, open_ids=()):
                 h.step(json.loads(json.dumps(op)))
         except Mismatch as e:
             return e.failure
+        if stats is not None:
+            for lab in h.labels:
+                stats.hist[lab] += 1
+            for fid, n in h.excluded.items():
+                stats.excluded_known[fid] += n
     finally:
         h.close()
     return None
@@ -1371,6 +1737,187 @@ def worker_trunc(arg):
 
 
 # ----------------------------------------------------------------------------------------
+# enumeration of single-byte damage: every offset of a valid entry x a list of xor masks
+
+
+def flip_masks(tier, body_len):
+    bits = [1 << b for b in range(8)]
+    if tier == "thorough":
+        return bits + [0xFF, 0x7F, 0x55, 0xAA, 0x0F, 0xF0, 0x03, 0xC0]
+    if body_len <= 400:
+        return bits
+    return None         # per offset: the sign bit and one other bit (see worker_flip)
+
+
+def worker_flip(arg):
+    shard, nshards, tier, scratch, open_ids = arg
+    _setup(scratch)
+    st = Stats()
+    vias = ["script", "import", "rc"]
+    hdr = _state["header"]
+    for bi, (label, prime, cor, runop) in enumerate(trunc_bases(tier)):
+        if bi % nshards != shard:
+            continue
+        if cor.get("target") != "code":
+            runop = dict(runop, via=vias[bi % 3])
+            prime = [dict(op, via=vias[bi % 3]) if op["op"] == "run" else op for op in prime]
+        label = label + (":" + runop["via"] if "via" in runop else "")
+
+        def fresh():
+            h = History(open_ids)
+            for op in prime:
+                h.step(json.loads(json.dumps(op)))
+            return h
+
+        try:
+            h = fresh()
+        except Mismatch as e:
+            e.failure.bucket = "flip-priming:" + e.failure.bucket
+            st.fail(e.failure)
+            continue
+        try:
+            if cor.get("target") == "code":
+                path = h.code_entry(render_code(cor["kind"], cor["tok"]), cor["mode"])["file"]
+                fname = "<string>"
+            else:
+                path = h.find_entry()
+                fname = h.last_fn
+            if path is None or not os.path.isfile(path):
+                st.inconclusive += 1
+                st.notes.append("flip base %s: the priming run left no cache entry" % label)
+                continue
+            with open(path, "rb") as f:
+                valid = f.read()
+            if not valid.startswith(hdr) or classify_remote(valid[len(hdr):]) != "code":
+                st.fail(Failure("primed-entry-malformed", {"ops": prime, "backend": "inproc"},
+                                "the entry written by a first cached run is not header + marshalled code"))
+                continue
+            body = valid[len(hdr):]
+            masks = flip_masks(tier, len(body))
+            st.hist["flip-entries"] += 1
+            st.hist["flip-bytes"] += len(body)
+            plan = []
+            for off in range(len(body)):
+                for m in (masks if masks is not None else [0x80, 1 << ((off * 5 + bi) % 7)]):
+                    plan.append(("flip", signed_offset(body, off, fname), m))
+            if bi < 2 * nshards or tier == "thorough":
+                for off in range(len(hdr)):
+                    for b in range(8):
+                        plan.append(("hflip", off, 1 << b))
+            for how, off, m in plan:
+                ops = [dict(cor, how=how, arg=[off, m]), dict(runop)]
+                n0 = len(h.ops)
+                fail = None
+                try:
+                    h.step(json.loads(json.dumps(ops[0])))
+                    done = len(h.ops) > n0
+                    if done:
+                        h.step(json.loads(json.dumps(ops[1])))
+                except Mismatch as e:
+                    done = True
+                    fail = e.failure
+                    fail.case = {"ops": prime + ops, "backend": "inproc"}
+                    fail.bucket = "flip:" + fail.bucket
+                cls = h.flip_class or "no-valid-entry"
+                if cls == "no-valid-entry":
+                    raise common.HarnessError("flip enumeration %s: the entry is not valid before a flip (%r)" % (label, ops[0]))
+                cls = "undetectable-damage" if cls == "code" else cls
+                st.case(("flip", label, how, off, m), done, ["flip-case", "flip-case:" + label.split(":")[0],
+                                                              "flipped:" + cls],
+                        sample={"entry": label, "how": how, "offset": off, "mask": m, "marshal": cls}
+                        if done and (off * 131 + m) % 97 == 0 else None, max_per_label=2)
+                if fail is not None:
+                    st.fail(fail)
+                    h.close()
+                    h = fresh()
+                del h.ops[len(prime):]
+                del h.labels[:]
+        finally:
+            h.close()
+    _clf_stop()
+    seen, out = set(), []
+    for f in st.failures:
+        if f.bucket not in seen:
+            seen.add(f.bucket)
+            out.append(f)
+    st.failures = out
+    return st
+
+
+# ----------------------------------------------------------------------------------------
+# a fixed family of path-identity histories: one name, several files behind it
+
+
+def ident_family(tier):
+    """[(label, ops)]: layout x link style x spelling x entry point x mtime of the new target x switches."""
+    out = []
+    i = 0
+    names = [["tool.xsh"], ["Dir A", "sub.d", "My_Script.V2.xsh"], ["rc.d", "init_rc.xsh"], ["run.py"]]
+    for layout in ("dir", "file", "cwd"):
+        for rellink in (False, True):
+            if layout == "cwd" and rellink:
+                continue
+            for spell in ("abs", "rel", "dotdot"):
+                if layout == "cwd" and spell == "abs":
+                    continue
+                for via in ("script", "import", "rc"):
+                    for mt in ("older", "equal", "newer"):
+                        for sw in (DEFAULTS, ALL_ON):
+                            i += 1
+                            if tier != "thorough" and i % 5 not in (0, 2):
+                                continue
+                            nm = names[i % len(names)]
+                            r = {"op": "run", "sw": list(sw), "via": via}
+                            ops = [{"op": "init", "path": nm, "layout": layout, "spell": spell, "rellink": rellink},
+                                   {"op": "edit", "kind": "both"}, dict(r),
+                                   {"op": "retarget", "to": 1, "mtime": mt, "kind": "where"}, dict(r),     # roll forward
+                                   {"op": "retarget", "to": 0, "mtime": "keep"}, dict(r),                  # roll back
+                                   {"op": "retarget", "to": 1, "mtime": "keep"}, dict(r),
+                                   {"op": "edit", "kind": "func"}, dict(r),
+                                   {"op": "retarget", "to": 2, "mtime": mt, "kind": "raise"}, dict(r),
+                                   {"op": "retarget", "to": 0, "mtime": "equal"}, dict(r),
+                                   {"op": "touch"}, {"op": "retarget", "to": 1, "mtime": "older"}, dict(r)]
+                            out.append(("%s:%s:%s:%s:%s:%s" % (layout, "rel-link" if rellink else "abs-link", spell, via, mt,
+                                                              "all-on" if sw == ALL_ON else "defaults"), ops))
+    return out
+
+
+IDENT_PROC = [
+    ("dir", "abs", "older", ["releases", "app.xsh"]), ("file", "rel", "equal", ["tool.xsh"]), ("cwd", "rel", "older", ["tool.xsh"]),
+]
+
+
+def worker_ident(arg):
+    which, tier, scratch, open_ids, tabledir = arg
+    _setup(scratch, tabledir)
+    st = Stats()
+    if which == "proc":
+        fam = []
+        for layout, spell, mt, nm in IDENT_PROC[: 3 if tier == "thorough" else 2]:
+            r = {"op": "run", "sw": list(DEFAULTS)}
+            fam.append(("proc:%s:%s:%s" % (layout, spell, mt),
+                        [{"op": "init", "path": nm, "layout": layout, "spell": spell, "rellink": layout == "file"},
+                         {"op": "edit", "kind": "both"}, dict(r),
+                         {"op": "retarget", "to": 1, "mtime": mt, "kind": "print"}, dict(r),
+                         {"op": "retarget", "to": 0, "mtime": "keep"}, dict(r)]))
+        backend = "proc"
+    else:
+        fam = ident_family(tier)
+        backend = "inproc"
+    seen = set()
+    for label, ops in fam:
+        f = check_history({"ops": ops, "backend": backend}, open_ids, stats=st)
+        st.case(("ident", label), True, ["ident-history:" + backend, "ident:" + label.split(":")[1 if backend == "proc" else 0]],
+                sample={"family": label, "ops": ops[:6]} if len(seen) < 1 else None, max_per_label=1)
+        if f is not None and f.bucket not in seen:
+            seen.add(f.bucket)
+            if backend == "inproc":
+                f = minimize_ops(f, open_ids)
+            st.fail(f)
+    return st
+
+
+# ----------------------------------------------------------------------------------------
 # the state machine
 
 _ctx = {}
@@ -1394,7 +1941,19 @@ def make_machine(backend):
     code_sws = st.one_of(st.just(ALL_ON), st.just(ALL_ON), st.just([1, 1, 1, 0]), st.just([1, 0, 1, 1]),
                          st.lists(bit, min_size=4, max_size=4))
     kinds = st.sampled_from(SCRIPT_KINDS)
-    vias = st.sampled_from(["script", "script", "script", "import"])
+    vias = st.sampled_from(["script", "script", "script", "import", "import", "rc"])
+    layouts = st.sampled_from([None, None, "top", "file", "dir", "cwd"])
+    spells = st.sampled_from(["abs", "abs", "rel", "dotdot"])
+    mtimes = st.sampled_from(["older", "older", "equal", "newer", "keep", "keep"])
+    # byte flips: the first bytes of a marshalled code object are its scalar fields, the last ones its line /
+    # exception tables; the rest is addressed modulo the length
+    offsets = st.one_of(st.integers(0, 24), st.integers(0, 4095), st.integers(0, 4095), st.integers(-80, -1))
+    masks = st.one_of(st.sampled_from([1, 2, 4, 8, 16, 32, 64, 128]), st.sampled_from([128, 128, 255, 64]),
+                      st.integers(1, 255))
+    flips = st.one_of(st.tuples(st.just("flip"), st.tuples(offsets, masks)),
+                      st.tuples(st.just("flip"), st.tuples(offsets, masks)),
+                      st.tuples(st.just("flip"), st.tuples(offsets, masks)),
+                      st.tuples(st.just("hflip"), st.tuples(st.integers(0, 63), masks)))
     ckinds = st.sampled_from(CODE_KINDS + ["print", "expr", "expr", "multi", "nonl"])
     ctoks = st.sampled_from(CODE_TOKS + ["c0", "c0"])
     modes = st.sampled_from(["exec", "exec", "single", "single", "single", "eval"])
@@ -1438,10 +1997,29 @@ def make_machine(backend):
                 _ctx["failed"] = True
                 raise
 
-        @initialize(p=paths, link=st.sampled_from([False, False, True]), rel=st.booleans(), k=kinds, sw=on_sws)
-        def start(self, p, link, rel, k, sw):
-            self.do({"op": "init", "path": list(p), "link": link, "rel": rel}, {"op": "edit", "kind": k},
-                    {"op": "run", "sw": list(sw)})
+        @initialize(p=paths, layout=layouts, spell=spells, rellink=st.booleans(), k=kinds, sw=on_sws, via=vias)
+        def start(self, p, layout, spell, rellink, k, sw, via):
+            self.do({"op": "init", "path": list(p), "layout": layout, "spell": spell, "rellink": rellink},
+                    {"op": "edit", "kind": k}, {"op": "run", "sw": list(sw), "via": via})
+
+        @rule(to=st.integers(0, 2), mt=mtimes, k=kinds, sw=st.one_of(st.none(), on_sws, on_sws, on_sws), via=vias)
+        def retarget(self, to, mt, k, sw, via):
+            self.do({"op": "retarget", "to": to, "mtime": mt, "kind": k})
+            if sw is not None:
+                self.do({"op": "run", "sw": list(sw), "via": via})
+
+        @rule(f=flips, sw=on_sws, via=vias)
+        def flip_script(self, f, sw, via):
+            # a valid, fresh entry first; then one byte of it is damaged
+            self.do({"op": "run", "sw": list(ALL_ON), "via": via},
+                    {"op": "corrupt", "how": f[0], "arg": list(f[1])}, {"op": "run", "sw": list(sw), "via": via})
+
+        @rule(f=flips, k=ckinds, t=ctoks, m=st.sampled_from(["exec", "single", "single"]), sw=code_sws)
+        def flip_code(self, f, k, t, m, sw):
+            c = {"op": "code", "kind": k, "tok": t, "mode": m, "sw": list(sw)}
+            self.do(dict(c, sw=list(ALL_ON)),
+                    {"op": "corrupt", "target": "code", "kind": k, "tok": t, "mode": m, "how": f[0], "arg": list(f[1])},
+                    dict(c))
 
         @rule(k=kinds, sw=st.one_of(st.none(), on_sws), via=vias)
         def edit(self, k, sw, via):
@@ -1517,10 +2095,14 @@ def worker_machine(arg):
 def worker_any(task):
     t0 = _time.time()
     which, arg = task
-    fn = {"machine": worker_machine, "trunc": worker_trunc, "inject": worker_inject, "replay": worker_replay}[which]
-    st = fn(arg)
+    fn = {"machine": worker_machine, "trunc": worker_trunc, "inject": worker_inject, "replay": worker_replay,
+          "flip": worker_flip, "ident": worker_ident}[which]
+    try:
+        st = fn(arg)
+    finally:
+        _clf_stop()
     if isinstance(st, Stats):
-        st.hist["worker-seconds:" + which + (":" + arg[0] if which == "machine" else "")] += int(_time.time() - t0)
+        st.hist["worker-seconds:" + which + (":" + arg[0] if which in ("machine", "ident") else "")] += int(_time.time() - t0)
     return st
 
 
@@ -1571,14 +2153,22 @@ def main(run):
 
     open_ids = sorted(run.known_open)
     quick = run.tier == "quick"
-    nprocs = 10 if quick else 16
-    n_in, n_proc, n_tr = (6, 3, 2) if quick else (11, 3, 4)
+    nprocs = 12 if quick else 16
+    try:
+        nprocs = max(1, min(nprocs, int(os.environ.get("VERIF_PROCS") or nprocs)))
+    except ValueError:
+        pass
+    n_in, n_proc, n_tr, n_fl = (6, 3, 2, 3) if quick else (11, 3, 4, 12)
     per_in = run.n(180, 2500)
     per_proc = run.n(4, 60)
     tasks = []
     for w in range(n_proc):
         tasks.append(("machine", ("proc", common.worker_seed(run.seed, 50 + w), per_proc, 9,
                                   os.path.join(run.scratch, "p%d" % w), open_ids, tabledir)))
+    tasks.append(("ident", ("proc", run.tier, os.path.join(run.scratch, "ip"), open_ids, tabledir)))
+    tasks.append(("ident", ("inproc", run.tier, os.path.join(run.scratch, "ii"), open_ids, tabledir)))
+    for s in range(n_fl):
+        tasks.append(("flip", (s, n_fl, run.tier, os.path.join(run.scratch, "f%d" % s), open_ids)))
     for s in range(n_tr):
         tasks.append(("trunc", (s, n_tr, run.tier, os.path.join(run.scratch, "t%d" % s), open_ids)))
     for w in range(n_in):
